@@ -1,5 +1,5 @@
 (* C13 — Per-block receipts, indices, cumulative gas and bloom are mutually consistent. *)
-From Evm Require Import TxPipe TxPipeExt TxPipeProofs TxPipeDenom TxPipeDenomProofs TxPipeSeqProofs.
+From Evm Require Import TxPipe TxPipeExt TxPipeProofs TxPipeDenom TxPipeDenomProofs TxPipeSeqProofs TxPipeSeqXProofs.
 Open Scope Z_scope.
 
 (* For the Ethereum transaction at ANY position of ANY block (items before it: [pre]): if it reached execution
@@ -148,5 +148,33 @@ Example C13_example_sequences :
   let tr := trace (begin_block s) [Eth (t 0 50000) (mkOut 21000 false 2 [] 0 false);
                                    Eth (t 1 30000) (mkOut 0 false 0 [] 0 true);
                                    Eth (t 2 60000) (mkOut 25000 false 1 [] 0 false)] in
+  shown_indices tr = [0; 1; 2] /\ shown_log_ids tr = [0; 1; 2] /\ total_logs tr = 3.
+Proof. vm_compute. repeat split; reflexivity. Qed.
+
+(* the same two sequences for blocks that also contain executions aborted by a panic (they own an index, have no
+   receipt and no log) and transactions of the Cosmos lane *)
+Theorem C13_x_block_indices_are_0_1_2 : forall s l,
+  tx_count (d_core s) = 0 ->
+  shown_indices (xtrace s l) = zrange 0 (Z.of_nat (length (reached (xtrace s l)))).
+Proof. exact x_block_indices_are_0_1_2. Qed.
+Print Assumptions C13_x_block_indices_are_0_1_2.
+
+Theorem C13_x_block_log_ids_consecutive : forall s l,
+  log_count (d_core s) = 0 ->
+  Forall (fun x : entry => 0 <= e_logs (snd (fst x))) (xtrace s l) ->
+  shown_log_ids (xtrace s l) = zrange 0 (total_logs (xtrace s l)) /\ NoDup (shown_log_ids (xtrace s l)) /\
+  (forall z, In z (shown_log_ids (xtrace s l)) <-> 0 <= z < total_logs (xtrace s l)).
+Proof. exact x_block_log_ids_consecutive. Qed.
+Print Assumptions C13_x_block_log_ids_consecutive.
+
+(* non-vacuity: the block of C13_example_aborted: the aborted execution owns index 1 and no log index *)
+Example C13_example_sequences_aborted :
+  let c := mkSt (fun a => if a =? 7 then 10^18 else 0) (fun _ => 0) (fun a => a =? 7) (fun _ => false)
+                (5 * 10^18) 1000 0 0 0 0 0 0 false false in
+  let s := mkDst (begin_block c) (mkLedger (fun _ _ => 0) (fun _ => 0)) in
+  let t n g := mkTx 7 (Some 7) true false 2000 0 0 g n 0 false 21000 in
+  let tr := xtrace s [XItem (DEth (t 0 50000) (mkOut 21000 false 2 [] 0 false) (mkDx [] []));
+                      XPanic (t 1 30000) 0;
+                      XItem (DEth (t 2 60000) (mkOut 25000 false 1 [] 0 false) (mkDx [] []))] in
   shown_indices tr = [0; 1; 2] /\ shown_log_ids tr = [0; 1; 2] /\ total_logs tr = 3.
 Proof. vm_compute. repeat split; reflexivity. Qed.
